@@ -122,6 +122,19 @@ CLAIMED = {
          "main theorem: a handler's own Content-Length is truthful; trusted: Coq kernel, extraction, lib/srv.py, python strict parser",
     technique="Coq proof over executable model + differential correspondence (extracted OCaml vs real lighttpd over loopback, fault-injected) + strict RFC 9112 parser monitor",
     design="5/C04"),
+ "C12": dict(
+    text="Coq theorems about the size arithmetic of parsers that write into fixed or pre-sized storage, over the executable models of burl_normalize "
+         "(C02) and http_range_parse (C15) and the chunk-size accumulators, with capacities and guards re-read from the source on every run "
+         "(tools/c2v_safe.py): for every validated prefix and every tail the rewritten URL plus terminator fits the scratch buffer the code requests; "
+         "never more than RMAX range pairs are collected (the loop guard and array/limit factors are as modelled); below the chunk-size guard the "
+         "next hex digit and the +2 cannot overflow off_t; the search side runs ASan+UBSan builds of the URL and Range harnesses on inputs aimed at "
+         "those limits and the real server on mutated HTTP/1.x, random HTTP/2 frame sequences and overflowing backend responses (liveness, probe, "
+         "memory and descriptor growth)",
+    note="PARTIAL by nature: memory safety of C is not provable here without a C semantics (VST/CompCert absent); only the listed size computations are "
+         "theorems, everything else is sanitizer-observed search (not a proof); UBSan's nonnull-attribute check is off (memcpy(dst, NULL, 0) in "
+         "ls-hpack); the sanitizer build of the whole server runs in the thorough tier only; trusted: Coq kernel, tools/c2v_safe.py, ASan/UBSan",
+    technique="Coq proof over models with translator-extracted capacities/guards (regenerated each run) + sanitizer-instrumented differential search (harnesses and real server)",
+    design="5/C12"),
  "C13": dict(
     text="Coq theorems over an executable model of the per-second timeout sweep of a connection (h1_check_timeout: keep-alive, read, write idle, "
          "lingering close) and of admission control (lim_conns bookkeeping, accept loop bounded by lim_conns, listening sockets disabled at 0 and "
